@@ -378,7 +378,7 @@ func c17Run(raw json.RawMessage) (Case, error) {
 			}
 		}
 		count := func() int { mu.Lock(); defer mu.Unlock(); return len(collected) }
-		crossWaitStable(count, len(in.Spans), 1500*time.Millisecond, 40*time.Millisecond)
+		crossWaitStable(count, len(in.Spans), 4*time.Second, 40*time.Millisecond)
 		mu.Lock()
 		for i, sp := range in.Spans {
 			var hp, cl []string
